@@ -56,7 +56,7 @@ def _cache(gb, b):
         if a in gb.__dict__:
             return a
     return None
-VENCS = ["f64", "i64", "bool", "M8", "m8", "f32", "series_f64", "series_i64", "series_M8tz", "arrowseries", "pl", "pa", "pachunk", "frame", "list"]
+VENCS = ["f64", "i64", "bool", "M8", "m8", "f32", "series_f64", "series_i64", "series_M8tz", "arrowseries", "pl", "pa", "pachunk", "frame", "list", "list_M8tz", "list_M8", "dict_m8"]
 KCONT = ["np", "series", "index", "pl", "pa", "pachunk", "arrowseries"]
 
 
@@ -98,6 +98,13 @@ def _values(venc, n, rng):
         return pd.DataFrame({"a": f, "b": np.array(base, dtype=np.int64)}, copy=False)
     if venc == "list":
         return [f, np.array(base, dtype=np.int64)]
+    # collections the caller owns, holding a temporal column (the library converts those to integers internally)
+    if venc == "list_M8tz":
+        return [_values("series_M8tz", n, rng), f]
+    if venc == "list_M8":
+        return [_values("M8", n, rng), pd.Series(f, name="x")]
+    if venc == "dict_m8":
+        return {"d": _values("m8", n, rng), "x": f}
     raise ValueError(venc)
 
 
@@ -106,6 +113,8 @@ def _first_col(v):
         return v.iloc[:, 0]
     if isinstance(v, list):
         return v[0]
+    if isinstance(v, dict):
+        return next(iter(v.values()))
     return v
 
 
